@@ -538,6 +538,27 @@ class Engine:
             if method == "abs" and s.decide(x == z3.BitVecVal(lo, w)):
                 raise Panic("overflow", "attempt to negate with overflow (abs)", callee)
             return z3.If(x < 0, -x, x)
+        if method == "abs_diff":
+            y = a[1]
+            if isinstance(x, int) and isinstance(y, int):
+                return abs(x - y)
+            X, Y = s.to_bv(x, w), s.to_bv(y, w)
+            ge = (X >= Y) if sg else z3.UGE(X, Y)
+            return z3.If(ge, X - Y, Y - X)
+        if method == "clamp":
+            lo_, hi_ = a[1], a[2]
+            if s.decide(s.binop("Lt", x, lo_, ty)):
+                return lo_
+            if s.decide(s.binop("Gt", x, hi_, ty)):
+                return hi_
+            return x
+        if method in ("rem_euclid", "div_euclid") and isinstance(a[1], int) and a[1] > 0:
+            q = s.binop("Div", x, a[1], ty)
+            r = s.binop("Rem", x, a[1], ty)
+            negr = s.decide(s.binop("Lt", r, 0, ty))
+            if method == "rem_euclid":
+                return s.binop("Add", r, a[1], ty) if negr else r
+            return s.binop("Sub", q, 1, ty) if negr else q
         if method in ("is_negative", "is_positive"):
             return s.binop("Lt" if method == "is_negative" else "Gt", x, 0, ty)
         if method == "signum":
